@@ -127,6 +127,9 @@ type PartSpec struct {
 	Desc    string   `json:"desc,omitempty"`
 	Via     string   `json:"via"` // string | writer | texttpl | htmltpl
 	Prod    Producer `json:"prod,omitempty"`
+	// DescBySetter: the description is not given as an option when the part is created but set
+	// afterwards through (*Part).SetDescription on the part the message hands out (GetParts).
+	DescBySetter bool `json:"desc_by_setter,omitempty"`
 }
 
 // FileSpec describes an embed or attachment.
@@ -457,7 +460,7 @@ func Build(spec *MsgSpec, env *Env) (*Built, error) {
 			popts = append(popts, mail.WithPartCharset(mail.Charset(p.Charset)))
 			cs = p.Charset
 		}
-		if p.Desc != "" {
+		if p.Desc != "" && !p.DescBySetter {
 			popts = append(popts, mail.WithPartContentDescription(p.Desc))
 		}
 		calls := new(int)
@@ -504,6 +507,13 @@ func Build(spec *MsgSpec, env *Env) (*Built, error) {
 		}
 		if err != nil {
 			return nil, fmt.Errorf("part %d: %w", i, err)
+		}
+		if p.Desc != "" && p.DescBySetter {
+			if parts := m.GetParts(); len(parts) == i+1 {
+				parts[i].SetDescription(p.Desc)
+			} else {
+				return nil, fmt.Errorf("part %d: GetParts returned %d parts", i, len(parts))
+			}
 		}
 		b.Leaves = append(b.Leaves, Leaf{Kind: "part", MediaType: p.CType, Charset: cs, CTE: cte, Desc: p.Desc, Content: p.Content})
 	}
@@ -767,6 +777,7 @@ func Program(t *rapid.T, o GenOpts) *MsgSpec {
 		}
 		if o.Descriptions {
 			p.Desc = rapid.SampledFrom(benignDescs).Draw(t, "pdesc")
+			p.DescBySetter = rapid.IntRange(0, 2).Draw(t, "pdescsetter") == 0
 		}
 		eff := p.Enc
 		if eff == "" {
